@@ -779,4 +779,125 @@ example : chooseIntDtypeMode .native (some 24) (1/2) 4294967296 = ("uint32", 0, 
       [some 0, none, some 7] := by
   decide +kernel
 
+/-! ### the implicit zeros of a sparse matrix -/
+
+/-- "an integer type wide enough for all values" - including the values the
+min / max of a CSR / CSC matrix never sees: every rung of the ladder, and the
+default type, contains 0, so the implicit zeros fit whatever type is chosen
+(any comparison mode, any bounds). -/
+theorem sparse_zeros_fit :
+    (∀ r ∈ Generated.intLadder, r.2.1 ≤ 0 ∧ 0 ≤ r.2.2) ∧
+    (Generated.intLadderDefault.2.1 ≤ 0 ∧ 0 ≤ Generated.intLadderDefault.2.2) ∧
+    ∀ (mode : CompareMode) (fb : Option Nat) (mn mx : Rat),
+      castTo (chooseIntDtypeMode mode fb mn mx) 0 = some 0 ∧
+      castTo (chooseIntDtype fb mn mx) 0 = some 0 := by
+  obtain ⟨h1, h2⟩ := ladder_contains_zero
+  have h1' : ∀ r ∈ Generated.intLadder, r.2.1 ≤ 0 ∧ 0 ≤ r.2.2 := by
+    intro r hr
+    have := List.all_eq_true.1 h1 r hr
+    simpa using this
+  have key : ∀ (mode : CompareMode) (fb : Option Nat) (mn mx : Rat),
+      castTo (chooseIntDtypeMode mode fb mn mx) 0 = some 0 := by
+    intro mode fb mn mx
+    apply castTo_zero
+    rcases chooseIntDtypeMode_mem mode fb mn mx with h | h
+    · exact h1' _ h
+    · rw [h]; exact h2
+  refine ⟨h1', h2, fun mode fb mn mx => ⟨key mode fb mn mx, ?_⟩⟩
+  rw [chooseIntDtype_eq_mode]
+  exact key _ _ _ _
+
+example : minmaxSparse [3, 7, 5] (some 2) = .ok (some (3, 7)) ∧
+    castTo (chooseIntDtypeMode .exact none 3 7) 0 = some 0 := by decide +kernel
+
+/-! ### every rejection -/
+
+/-- The one refusal of the gene mapper (not mentioned in the property text):
+`map_gene_identifiers` fails - "Could not map any of your genes" - exactly when
+there is at least one gene and every gene is unknown (neither an Ensembl
+identifier nor a known symbol); it has no other way to fail. -/
+theorem mapGenes_all_unknown_rejected (lookup : List (Name × Name)) (placeholder : Nat → Name)
+    (start : Nat) (genes : List Name) (e : VErr) :
+    mapGenes lookup placeholder start genes = .error e ↔
+      e = .allUnmappable ∧ genes ≠ [] ∧
+        ∀ g ∈ genes, isEnsembl g = false ∧ lookup.lookup g = none := by
+  rw [mapGenes_error_iff]
+  simp only [isUnknown, Bool.and_eq_true, Bool.not_eq_true', Option.isNone_iff_eq_none]
+
+example : mapGenes demoLookup demoPlaceholder 0 [['x'], ['y','z']] = .error .allUnmappable ∧
+    (mapGenes demoLookup demoPlaceholder 0 [['x'], ['A','b','c']]).toOption.map (·.mapped) =
+      some [['u','_'], ['E','N','S','G','0','7']] := by decide +kernel
+
+/-- In all other cases the mapper succeeds. -/
+theorem mapGenes_ok_iff (lookup : List (Name × Name)) (placeholder : Nat → Name)
+    (start : Nat) (genes : List Name) :
+    (∃ o, mapGenes lookup placeholder start genes = .ok o) ↔
+      (genes = [] ∨ ∃ g ∈ genes, isEnsembl g = true ∨ (lookup.lookup g).isSome = true) := by
+  constructor
+  · rintro ⟨o, ho⟩
+    by_cases hne : genes = []
+    · exact Or.inl hne
+    · right
+      by_contra hno
+      have hall : ∀ g ∈ genes, isEnsembl g = false ∧ lookup.lookup g = none := by
+        intro g hg
+        constructor
+        · cases h : isEnsembl g
+          · rfl
+          · exact absurd ⟨g, hg, Or.inl h⟩ hno
+        · cases h : lookup.lookup g
+          · rfl
+          · exact absurd ⟨g, hg, Or.inr (by rw [h]; rfl)⟩ hno
+      have := (mapGenes_all_unknown_rejected lookup placeholder start genes .allUnmappable).2
+        ⟨rfl, hne, hall⟩
+      rw [ho] at this; cases this
+  · intro h
+    cases hm : mapGenes lookup placeholder start genes with
+    | ok o => exact ⟨o, rfl⟩
+    | error e =>
+      exfalso
+      obtain ⟨_, hne, hall⟩ := (mapGenes_all_unknown_rejected _ _ _ _ _).1 hm
+      rcases h with h | ⟨g, hg, h⟩
+      · exact hne h
+      · obtain ⟨h1, h2⟩ := hall g hg
+        rcases h with h | h
+        · rw [h1] at h; cases h
+        · rw [h2] at h; cases h
+
+example : ∃ g ∈ demoInput.genes, isEnsembl g = true ∨ (demoLookup.lookup g).isSome = true :=
+  ⟨_, List.mem_cons_self, Or.inl (by decide +kernel)⟩
+
+/-- "duplicate cell identifiers, duplicate or empty gene names, and two genes
+mapping to one identifier are rejected" - and nothing else, except genes that
+are all unknown and a matrix without entries: the complete list of the ways
+`_validate_h5ad` fails, in the order of the source, each with its exact
+condition (`minmaxUsed` is the min / max read when an expected maximum is given
+or a cast to integers is needed, `(0, 0)` otherwise). -/
+theorem validate_error_cases (placeholder : Nat → Name) (inp : Input) (e : VErr) :
+    validate placeholder inp = .error e ↔
+      (e = .dupCellIds ∧ hasDup inp.cellIds = true) ∨
+      (e = .badGeneNames ∧ hasDup inp.cellIds = false ∧
+        (hasDup inp.genes = true ∨ [] ∈ inp.genes)) ∨
+      (e = .allUnmappable ∧ hasDup inp.cellIds = false ∧ hasDup inp.genes = false ∧
+        [] ∉ inp.genes ∧ inp.genes ≠ [] ∧
+        ∀ g ∈ inp.genes, isEnsembl g = false ∧ inp.lookup.lookup g = none) ∨
+      (e = .emptyMatrix ∧ hasDup inp.cellIds = false ∧ hasDup inp.genes = false ∧
+        [] ∉ inp.genes ∧
+        (∃ mv k, mapGeneIdsInVar inp.lookup placeholder inp.start inp.genes = .ok (mv, k)) ∧
+        (minmaxUsed inp = .error .emptyMatrix ∨ minmaxUsed inp = .ok none)) ∨
+      (e = .dupMapped ∧ hasDup inp.cellIds = false ∧ hasDup inp.genes = false ∧
+        [] ∉ inp.genes ∧ ∃ m k mn mx,
+          mapGeneIdsInVar inp.lookup placeholder inp.start inp.genes = .ok (some m, k) ∧
+          minmaxUsed inp = .ok (some (mn, mx)) ∧ hasDup m = true) := by
+  rw [validate_error_iff]
+  simp only [isUnknown, Bool.and_eq_true, Bool.not_eq_true', Option.isNone_iff_eq_none]
+
+example : validate demoPlaceholder { demoInput with genes := [['x'], ['y']] } = .error .allUnmappable ∧
+    validate demoPlaceholder
+      { demoInput with storage := .dense [] 4 (some (1, 3)), expectedMax := some 10 } = .error .emptyMatrix ∧
+    (validate demoPlaceholder
+      { demoInput with storage := .sparse [] none, expectedMax := some 10 }).toOption.map (·.dtype) =
+      some none := by
+  decide +kernel
+
 end CTM.C16
